@@ -220,12 +220,14 @@ CLAIMED.update({
               "BenchArgs: the list is built exactly once, both runners expose the same names slice, names[i] is the rendering of argument i, and "
               "each instantiation's runner calls ITS OWN function with the argument at the index asked for (every index). (2) The real "
               "Divan::run_bench_entry: for any single label or ordered pair of labels left after filtering / sorting, each label is dispatched "
-              "with the index of that label in the ORIGINAL names slice and the benchmark receives the value stored at that index. "
+              "with the index of that label in the ORIGINAL names slice and the benchmark receives the value stored at that index; (3) the text of its "
+              "Args arm (copied on every run into a shim whose runner and row painter are recorders): four labels all kept with the inner two in either "
+              "order, and every ordered pair of two kept labels - each row is painted with its label and run with that label's original index. "
               "util::slice_ptr_index(slice, &slice[i]) == i (complete)."),
         note=("Argument types other than &str (ToString / Debug rendering, String / Box<str> / Cow<str> reuse, slices, ranges), consts and types "
               "named by a label, and the macro-generated code are NOT covered. Kani's check on mem::zeroed() of the zero-sized closure and five "
               "checks inside Kani's dealloc model are disregarded in these harnesses (see evidence notes / DESIGN 2.3)."),
-        technique="bounded Kani harnesses on BenchArgs::runner / args::bench and on run_bench_entry",
+        technique="bounded Kani harnesses on BenchArgs::runner / args::bench, on run_bench_entry and on the text of its Args arm",
         design_ref="5 C17"),
     "C16": dict(
         category="other",
